@@ -89,3 +89,71 @@ func TestVerifSearch_Route(t *testing.T) {
 		}
 	}
 }
+
+// ---- OnCReact: an error reply must not leave fragments of the request on backend queues ----
+
+type verifSConn struct {
+	core.SConn
+	queued []*core.Frag
+}
+
+func (s *verifSConn) EnqueueOutFrag(f *core.Frag) { s.queued = append(s.queued, f) }
+func (s *verifSConn) IsOpened() bool               { return true }
+func (s *verifSConn) Fd() int                      { return 9 }
+
+type verifCConn struct {
+	core.CConn
+	in []*core.Msg
+}
+
+func (c *verifCConn) Fd() int                 { return 7 }
+func (c *verifCConn) EnqueueInMsg(m *core.Msg) { c.in = append(c.in, m) }
+
+// TestVerifSearch_OnCReactRecycle: a two-slot request whose second slot cannot be served. Whatever order the
+// fragments are visited in, a non-nil reply (after which the event loop recycles the request) must come with no
+// fragment of the request left on a backend queue, and a nil reply with every fragment queued and the request
+// on the client's queue.
+func TestVerifSearch_OnCReactRecycle(t *testing.T) {
+	type fault struct {
+		name string
+		prep func()
+	}
+	faults := []fault{
+		{"slot without an owner", func() {}},
+		{"owner without a pool", func() {
+			verifAddSlot(200, "m2:1")
+			delete(core.EngineGlobal.ProxyPool, "m2:1")
+		}},
+		{"owner whose dial fails", func() {
+			verifAddSlot(200, "m3:1")
+			core.EngineGlobal.ProxyPool["m3:1"] = &core.Pool{Addr: "m3:1", Dial: func(string, bool) (core.SConn, error) { return nil, fmt.Errorf("refused") }}
+		}},
+	}
+	for _, fl := range faults {
+		for i := 0; i < 64; i++ {
+			back := &verifSConn{}
+			verifTopology(100, "m:1", nil, nil, nil)
+			core.EngineGlobal.ProxyPool["m:1"] = &core.Pool{Addr: "m:1", Dial: func(string, bool) (core.SConn, error) { return back, nil }}
+			fl.prep()
+			ls := &listenServer{Options: &Options{DisableSlave: true}}
+			r := &core.Msg{Type: codec.ReqMget, Body: map[int32]*core.Frag{100: {Key: "a"}, 200: {Key: "b"}}}
+			cc := &verifCConn{}
+			out, _ := ls.OnCReact(r, cc)
+			if out != nil && len(back.queued) > 0 {
+				verifWitness(t, "OnCReact(MGET over slots 100 and 200; %s) answered %q, after which the event loop recycles the request, but had already queued %d fragment(s) of it on a backend connection", fl.name, out, len(back.queued))
+				return
+			}
+			if out == nil && (len(cc.in) != 1 || len(back.queued) == 0) {
+				verifWitness(t, "OnCReact(%s) returned no reply but queued request=%d fragments=%d", fl.name, len(cc.in), len(back.queued))
+				return
+			}
+		}
+	}
+}
+
+func verifAddSlot(slot int32, master string) {
+	arr := reflect.ValueOf(&core.EngineGlobal.Slots2Node).Elem()
+	rs := reflect.New(arr.Type().Elem().Elem())
+	rs.Elem().FieldByName("Master").Set(reflect.ValueOf(&core.ClusterNode{Addr: master, Role: core.Master}))
+	arr.Index(int(slot)).Set(rs)
+}
